@@ -431,3 +431,12 @@ impl<T: ?Sized + Trace + Debug> Debug for Weak<T> {
         write!(f, "(Weak)")
     }
 }
+
+#[cfg(feature = "verif-hooks")]
+impl<T: ?Sized + Trace> Weak<T> {
+    /// (Verification hook) Returns the pointer to the side record, if any.
+    #[inline]
+    pub(crate) fn verif_metadata(&self) -> Option<NonNull<BoxedMetadata>> {
+        self.metadata
+    }
+}
